@@ -1,7 +1,6 @@
 package props
 
 import (
-	"time"
 
 	"github.com/zitadel/saml/pkg/provider/key"
 
@@ -143,7 +142,7 @@ func init() {
 				return []string{"no-success-response-for-a-completed-request"}
 			}
 			v := c03Verdict{Detail: map[string]any{}}
-			c03CheckSuccess(&v, m, s.T, "", false, time.Time{}, time.Time{}, false)
+			c03CheckSuccess(&v, m, s.T, "", c03Clock{Now: world.Now}, false)
 			return v.Clauses
 		})
 	}
